@@ -21,7 +21,7 @@ SPECDIR = os.path.join(vlib.BUILD, "spec816")
 SNAPDIR = os.path.join(vlib.COQ, "Snapshot")
 if "Snapshot" not in vlib.COQ_ARGS:
     vlib.COQ_ARGS += ["-Q", SNAPDIR, "Snapshot"]
-PROOF_FILES = ["C01Base", "C01Shift", "C01OpsA", "C01OpsB", "C01OpsC", "C01OpsD", "C01OpsE", "C01OpsF", "C01OpsG", "C01OpsH", "C01Flow", "C01Props"]
+PROOF_FILES = ["C01Base", "C01Shift", "C01OpsA", "C01OpsB", "C01OpsC", "C01OpsD", "C01OpsE", "C01OpsF", "C01OpsG", "C01OpsH", "C01Flow", "C01Imm", "C01OpsI", "C01OpsJ", "C01OpsK", "C01Props"]
 CORPUS = os.path.join(vlib.ROOT, "corpus", "C01", "cases.txt")
 SNAPSHOT = os.path.join(vlib.COQ, "Snapshot", "GenCpu65.v")
 
@@ -288,9 +288,17 @@ def live_replay(ck):
     rc, out, _, _ = vlib.coqc(names["C01Shift"], timeout=1200)
     if rc != 0:
         return False, "C01Shift against the regenerated model:\n" + out[-1500:], 0
-    ops = [n for n in PROOF_FILES if n.startswith("C01Ops") or n == "C01Flow"]
-    res = vlib.parallel([(lambda n=n: vlib.coqc(names[n], timeout=2400)) for n in ops], workers=8)
+    imm_ops = ("C01OpsI", "C01OpsJ", "C01OpsK")
+    ops = [n for n in PROOF_FILES if (n.startswith("C01Ops") and n not in imm_ops) or n == "C01Flow"]
+    res = vlib.parallel([(lambda n=n: vlib.coqc(names[n], timeout=2400)) for n in ops], workers=10)
     for n, (rc, out, _, _) in zip(ops, res):
+        if rc != 0:
+            return False, "%s against the regenerated model:\n%s" % (n, out[-1500:]), 0
+    rc, out, _, _ = vlib.coqc(names["C01Imm"], timeout=1200)
+    if rc != 0:
+        return False, "C01Imm against the regenerated model:\n" + out[-1500:], 0
+    res = vlib.parallel([(lambda n=n: vlib.coqc(names[n], timeout=2400)) for n in imm_ops], workers=4)
+    for n, (rc, out, _, _) in zip(imm_ops, res):
         if rc != 0:
             return False, "%s against the regenerated model:\n%s" % (n, out[-1500:]), 0
     rc, out, _, _ = vlib.coqc(names["C01Props"], timeout=1200)
@@ -309,6 +317,7 @@ From Coq Require Import ZArith List.
 From Lib Require Import Machine.
 From Snapshot Require Import GenFields GenCpu65.
 From Props Require Import C01Base C01Props.
+Set Printing Depth 2000.
 Definition n_proved := Eval vm_compute in List.length proved_opcodes.
 Print n_proved.
 Definition the_proved := Eval vm_compute in proved_opcodes.
